@@ -231,6 +231,55 @@ def run_impl(lines, env=None):
     return run_lines(IMPL_BIN[0], lines, env=env)
 
 
+# ------------------------------------------------------------------ thorough-tier extras
+
+TIER = ["quick"]
+
+
+def coq_q_args():
+    args = []
+    for sub in ("lib", "model", "proofs", "props", "extract", "history"):
+        args += ["-Q", os.path.join(COQ, sub), "OA"]
+    return args
+
+
+def coqchk(prop_id):
+    """independent re-check of the compiled property file and everything it depends on"""
+    rc, out = sh(["coqchk", "-o", "-silent"] + coq_q_args() + ["OA." + prop_id], cwd=COQ, timeout=3000)
+    m = re.search(r"\* Axioms:\s*(.*?)(?:\n\s*\n|\* |\Z)", out, re.S)
+    axioms = m.group(1).strip() if m else "?"
+    return {"exit": rc, "axioms": " ".join(axioms.split())[:400], "tail": out.strip()[-300:]}
+
+
+def vm_crosscheck(lines, expected, limit=120):
+    """standing cross-check of extraction + OCaml driver: re-evaluate a sample of protocol lines
+    inside Coq with vm_compute and compare with what the extracted binary printed"""
+    idx = [i for i in range(len(lines)) if len(lines[i]) < 1500 and '"' not in lines[i]]
+    if not idx:
+        return {"sampled": 0, "mismatches": 0}
+    step = max(1, len(idx) // limit)
+    idx = idx[::step][:limit]
+    d = os.path.join(CACHE, "vmcheck")
+    os.makedirs(d, exist_ok=True)
+    src = os.path.join(d, "cases_%d.v" % os.getpid())
+    with open(src, "w") as f:
+        f.write("From Coq Require Import String List. Import ListNotations.\nFrom OA Require Import Bytes Run.\nOpen Scope string_scope.\n")
+        f.write("Definition cases : list string := [\n")
+        f.write(";\n".join('"%s"' % lines[i] for i in idx))
+        f.write("].\nSet Printing Width 100000000. Set Printing Depth 100000000.\n")
+        f.write("Eval vm_compute in map (fun s => string_of_list_ascii (run_line (list_ascii_of_string s))) cases.\n")
+    rc, out = sh(["coqc", "-noglob"] + coq_q_args() + ["-o", src + "o", src], cwd=d, timeout=3000)
+    if rc != 0:
+        return {"sampled": len(idx), "mismatches": -1, "error": out[-400:]}
+    got = re.findall(r'"((?:[^"]|"")*)"', out)
+    got = [g.replace('""', '"') for g in got]
+    mism = [(lines[i], expected[i], g) for i, g in zip(idx, got) if expected[i] != g]
+    res = {"sampled": len(idx), "evaluated": len(got), "mismatches": len(mism) + (abs(len(got) - len(idx)))}
+    if mism:
+        res["first"] = [x[:300] for x in mism[0]]
+    return res
+
+
 # ------------------------------------------------------------------ tokens (python side)
 
 def tb(b):
@@ -361,6 +410,7 @@ def differential(prop_id, cases, monitor=None, finding_class=None, nontrivial=No
             raise RuntimeError("machinery error on case %r: impl=%r model=%r" % (l, a, b))
     cz = canon if canon is not None else (lambda l, o: o)
     disagree = [i for i in range(len(lines)) if cz(lines[i], impl[i]) != model[i]]
+    xcheck = vm_crosscheck(lines, model) if TIER[0] == "thorough" else None
     mon = {}
     if py_monitor is not None:
         # a property check simple enough to be stated directly on the observation (equalities
@@ -475,6 +525,10 @@ def differential(prop_id, cases, monitor=None, finding_class=None, nontrivial=No
         "generator_distribution": dict(Counter(labels)),
         "known_finding_hits": dict(known_hits),
     }
+    if xcheck is not None:
+        stats["extraction_crosscheck_vm_compute"] = xcheck
+        if xcheck.get("mismatches"):
+            raise RuntimeError("extracted model and vm_compute disagree: %r" % (xcheck,))
     if mon:
         stats["monitor_verdicts"] = dict(Counter(m.split(" ")[0] for m in mon.values()))
     return violations, stats
